@@ -681,6 +681,25 @@ func init() {
 				segs = append(segs, unhx(h))
 			}
 			runRelayHTTP("relay", nil, flat(segs), segs, false, nil, nil, nil, nil)
+		} else if len(f) >= 7 && f[0] == "@relay" && f[1] == "ssh" {
+			up := strings.Split(f[2], ":")
+			parts := strings.Split(strings.Join(f[3:], " "), " | ")
+			if len(up) == 2 && len(parts) >= 3 {
+				var reqs []sshReqRec
+				for _, rq := range strings.Fields(parts[0]) {
+					tp := strings.SplitN(rq, ":", 2)
+					if len(tp) == 2 {
+						reqs = append(reqs, sshReqRec{tp[0], unhx(tp[1])})
+					}
+				}
+				var wrong []string
+				if len(parts) >= 4 {
+					for _, w := range strings.Split(strings.TrimSpace(parts[3]), ",") {
+						wrong = append(wrong, string(unhx(w)))
+					}
+				}
+				runRelaySSHTries(string(unhx(up[0])), wrong, string(unhx(up[1])), reqs, unhx(strings.TrimSpace(parts[1])), unhx(strings.TrimSpace(parts[2])))
+			}
 		} else if len(f) == 4 && f[0] == "relay" && f[1] == "dial" {
 			var p int
 			fmt.Sscan(f[3], &p)
